@@ -3432,6 +3432,11 @@ class Session(object):
         pool = self._pools.pop(host, None)
         if pool:
             log.debug("Removed connection pool for %r", host)
+            if self.is_shutdown:
+                # submit() refuses work for a session that is shut down, and shutdown() no
+                # longer sees this pool: close it here
+                pool.shutdown()
+                return None
             return self.submit(pool.shutdown)
         else:
             return None
